@@ -24,6 +24,8 @@ def expected_refusal(op, pre):
     c, h = int(f[1]), int(f[2])
     ch = pre["chans"].get((c, h))
     if ch is not None and ch["st"] == 2:
+        if k == "CHCLOSE":
+            return None           # a close crossing the broker's own close is answered with close-ok
         return "discarded"        # the broker is closing this channel: everything but close / close-ok is dropped
     if k != "CH" and (ch is None or ch["st"] in (0, 3)):
         return ("conn", 504)      # the channel is not open
@@ -290,9 +292,17 @@ def _deliveries(st, pre):
     out = []
     fr = frames_of(st)
     f = st["op"].split()
+    # the GET requests of the step per channel, in order (a pipelined step may carry several)
+    subs = [x.strip().split() for x in st["op"][6:].split("|")] if f[0] == "MULTI" else [f]
+    gets = {}
+    for g in subs:
+        if g[0] == "GET":
+            gets.setdefault((int(g[1]), int(g[2])), []).append(g)
     i = 0
     while i < len(fr):
         c, h, name, args, tail = fr[i]
+        if name == "basic.get-empty" and gets.get((c, h)):
+            gets[(c, h)].pop(0)
         if name in ("basic.deliver", "basic.get-ok", "basic.return"):
             hdr = None
             bodies = []
@@ -320,8 +330,9 @@ def _deliveries(st, pre):
                     q, noack = de(f[3]), f[5] == "1"
                 rec.update(queue=q, noack=noack)
             elif name == "basic.get-ok":
-                rec.update(dtag=int(args[0]), red=args[1] == "1", ex=args[2], key=args[3], queue=de(f[3]) if f[0] == "GET" else None,
-                           noack=(f[4] == "1") if f[0] == "GET" else None)
+                g = gets[(c, h)].pop(0) if gets.get((c, h)) else None
+                rec.update(dtag=int(args[0]), red=args[1] == "1", ex=args[2], key=args[3], queue=de(g[3]) if g else None,
+                           noack=(g[4] == "1") if g else None)
             else:
                 rec.update(code=int(args[0]), ex=args[1], key=args[2], queue=None, noack=None, red=False, dtag=None)
             out.append(rec)
@@ -377,21 +388,28 @@ def monitor_c01(se, stats):
                         b.remove(x); a.remove(x)
                 lost, gained = b, a
                 stats["queue_transitions"] = stats.get("queue_transitions", 0) + 1
-                pub_uid = f[8] if f[0] == "PUB" else (f[5] if f[0] == "HDR" else None)
+                subs = [x.strip().split() for x in st["op"][6:].split("|")] if f[0] == "MULTI" else [f]
+                pub_uids = set()
+                for g in subs:
+                    if g[0] == "PUB":
+                        pub_uids.add(g[8])
+                    elif g[0] == "HDR":
+                        pub_uids.add(g[5])
                 for x in gained:
-                    if x != pub_uid:
+                    if x not in pub_uids:
                         viol.append({"step": i, "what": "message %s appeared in queue %s without being published to it (after `%s`)" % (x, qn, st["op"])})
                 for x in lost:
                     ok = False
-                    if f[0] == "ACK":
-                        ok = True
-                    elif f[0] == "NACK" and f[5] == "0":
-                        ok = True
-                    elif f[0] == "REJ" and f[4] == "0":
-                        ok = True
-                    elif f[0] == "QP" and de(f[3]) == qn:
-                        ok = True
-                    elif any(d["uid"] == x and d["noack"] for d in dels if d["kind"] != "basic.return" and d["queue"] == qn):
+                    for g in subs:
+                        if g[0] == "ACK":
+                            ok = True
+                        elif g[0] == "NACK" and g[5] == "0":
+                            ok = True
+                        elif g[0] == "REJ" and g[4] == "0":
+                            ok = True
+                        elif g[0] == "QP" and de(g[3]) == qn:
+                            ok = True
+                    if any(d["uid"] == x and d["noack"] for d in dels if d["kind"] != "basic.return" and d["queue"] == qn):
                         ok = True
                     if not ok:
                         viol.append({"step": i, "what": "message %s vanished from queue %s (it was %s) after `%s`" % (
@@ -421,9 +439,10 @@ def monitor_c02(se, stats):
         for qn in cur["queues"]:
             if prev is None or qn not in prev["queues"]:
                 qborn[qn] = i
-        if f[0] == "PUB":
-            lens = [] if f[9] in ("0", "-") else [int(x) for x in f[9].split("+")]
-            published[f[8]] = (de(f[3]), de(f[4]), sum(lens), f[7] == "1", lens)
+        for g in ([x.strip().split() for x in st["op"][6:].split("|")] if f[0] == "MULTI" else [f]):
+            if g[0] == "PUB":
+                lens = [] if g[9] in ("0", "-") else [int(x) for x in g[9].split("+")]
+                published[g[8]] = (de(g[3]), de(g[4]), sum(lens), g[7] == "1", lens)
         dels = _deliveries(st, prev)
         for d in dels:
             stats["deliveries_checked"] = stats.get("deliveries_checked", 0) + 1
@@ -500,8 +519,9 @@ def monitor_c03(se, stats):
         for qn in cur["queues"]:
             if prev is None or qn not in prev["queues"]:
                 qborn[qn] = i
-        if f[0] == "PUB":
-            pub[f[8]] = ((int(f[1]), int(f[2])), i)
+        for gi, g in enumerate([x.strip().split() for x in st["op"][6:].split("|")] if f[0] == "MULTI" else [f]):
+            if g[0] == "PUB":
+                pub[g[8]] = ((int(g[1]), int(g[2])), i * 100 + gi)
         dels = [d for d in _deliveries(st, prev) if d["kind"] != "basic.return" and d["queue"]]
         for d in dels:
             k = (d["queue"], qborn.get(d["queue"], 0))
